@@ -59,9 +59,9 @@ static const Profile& profileFor(const std::string &prop)
         P["C07"] = { "C07", K_ALL, true, true, false,
             cat({BUILD, CHURN, {{"bin", 40}, {"compl", 4}, {"copy", 8}, {"purge", 8}, {"release", 8}, {"image", 4}, {"unary", 4}, {"cross", 2}, {"rebuild", 4}}}), false, false };
         P["C08"] = { "C08", K(FK_MTB)|K(FK_MTI)|K(FK_EVP), true, true, false,
-            cat({BUILD, {{"reach", 30}, {"bin", 6}, {"release", 4}, {"purge", 2}, {"copy", 2}}}), false, false };
+            cat({BUILD, {{"reach", 30}, {"mkgraph", 10}, {"bin", 6}, {"release", 4}, {"purge", 2}, {"copy", 2}}}), false, false };
         P["C09"] = { "C09", K(FK_MTB)|K(FK_MTI)|K(FK_EVP)|K(FK_MTR), true, true, false,
-            cat({BUILD, {{"image", 30}, {"vmmult", 14}, {"bin", 4}, {"release", 4}, {"purge", 2}}}), false, false };
+            cat({BUILD, {{"image", 30}, {"vmmult", 14}, {"mkgraph", 8}, {"bin", 4}, {"release", 4}, {"purge", 2}}}), false, false };
         P["C10"] = { "C10", K_ALL|K_EVT, true, true, false,
             cat({BUILD, CHURN, {{"copy", 50}, {"bin", 6}}}), false, false };
         P["C11"] = { "C11", K_ALL|K(FK_IDX), true, true, false,
@@ -177,7 +177,7 @@ void generatePlan(uint64_t seed, const GenOptions &opt, Plan &P)
             if (f.rel) f.kind = FK_MTB;                         // relations are boolean
             else if (i == 0) f.kind = FK_MTB;                   // at least one boolean set forest
             if (!f.rel && f.kind == FK_MTI) f.red = 0;          // MT distances need a fully-reduced forest
-            if (f.rel) f.red = int(R.below(3));
+            if (f.rel) f.red = R.chance(1, 2) ? 2 : int(R.below(3));   // saturation needs identity-reduced relations (KF-C08-2/3)
             else if (f.kind == FK_MTB) f.red = int(R.below(2));
         }
         f.storage = 1 + int(R.below(3));
@@ -206,8 +206,8 @@ void generatePlan(uint64_t seed, const GenOptions &opt, Plan &P)
         const char* op = pf.ops[0].op;
         for (auto &o : pf.ops) { if (r < o.w) { op = o.op; break; } r -= o.w; }
         if (i < warm) {
-            static const char* b[] = { "mkcollmax", "mkmt", "mkcollmin", "mkvar", "mkcollmax" };
-            op = b[R.below(5)];
+            static const char* b[] = { "mkcollmax", "mkmt", "mkcollmin", "mkvar", "mkcollmax", "mkgraph" };
+            op = b[R.below((pr == "C08" || pr == "C09") ? 6 : 5)];
         }
         s.op = op;
         s.client = int(R.below(uint64_t(c.nclients)));
